@@ -480,6 +480,7 @@ class Interp:
         self.loop_bound = loop_bound
         self.dyn_impl = dyn_impl or {}
         self.follow_log = follow_log
+        self.explore_callbacks = True
         self.npaths = 0
         self.steps = 0
         self.max_steps = 3_000_000
@@ -1253,6 +1254,24 @@ class Interp:
                 res = ("call", ev_name, site, tuple(tform(a) for a in snap))
                 st.events.append(Event("call", ev_name, snap, site, t.span, tuple(self.ctx), res, c, extra={"raw_args": args}))
                 results = [(st, res)]
+                # an external callee may invoke the closures it is given: explore them (effects only)
+                for ai, a in enumerate(args):
+                    cv = a
+                    if isinstance(cv, Ref):
+                        cv = self.read_addr(st, cv.root, cv.path)
+                    if isinstance(cv, ClosureV) and cv.kind == "closure" and cv.path in self.facts.bodies and self.explore_callbacks:
+                        cb = self.facts.bodies[cv.path]
+                        nargs = max(cb.arg_count - 1, 0)
+                        cargs = [("cbarg", ev_name.split("::")[-1], site, i) for i in range(nargs)]
+                        nxt = []
+                        for s_, r_ in results:
+                            got = self.invoke(s_, a if isinstance(a, Ref) else cv, cargs, depth, site, label="callback:" + ev_name)
+                            for s2, cret in got:
+                                if s2.cut and s2.cut.startswith("loop"):
+                                    s2.cut = None
+                                s2.events.append(Event("callback-return", ev_name, [cret], site, t.span, tuple(self.ctx), extra={"closure": cv.path}))
+                                nxt.append((s2, r_))
+                        results = nxt or results
         out = []
         for s2, ret in results:
             if s2.cut:
@@ -1579,6 +1598,9 @@ def m_eq(I, st, t, args, site, depth):
     a = deref_arg(I, st, a)
     b = deref_arg(I, st, b)
     op = "Eq" if t.callee.name == "eq" else "Ne"
+    if isinstance(a, tuple) and isinstance(b, tuple) and a[:1] == ("str",) and b[:1] == ("str",):
+        r = a[1] == b[1]
+        return [(st, 1 if (r if op == "Eq" else not r) else 0)]
     d = I.decide_cmp(st, op, a, b)
     if d is not None:
         return [(st, 1 if d else 0)]
@@ -1722,7 +1744,7 @@ def atoms(v, acc=None, stop=None):
 
     def walk(x):
         if isinstance(x, tuple):
-            if x in acc:
+            if not x or x in acc:
                 return
             acc.add(x)
             for y in x:
